@@ -164,6 +164,10 @@ func (h *Headers) Serialize(frh *FrameHeader) {
 		frh.SetFlags(
 			frh.Flags().Add(FlagPadded))
 		h.rawHeaders = http2utils.AddPadding(h.rawHeaders)
+	} else {
+		// A frame that was parsed keeps the flags it arrived with, and its
+		// padding has been cut: PADDED must not survive into what is written.
+		frh.SetFlags(frh.Flags() &^ FlagPadded)
 	}
 
 	frh.payload = append(frh.payload[:0], h.rawHeaders...)
